@@ -776,7 +776,7 @@ class PybindWrapper:
             submodules_init="\n".join(submodules_init),
         )
 
-    def wrap_submodule(self, source):
+    def wrap_submodule(self, source, output=None):
         """
         Wrap a list of submodule files, i.e. a set of interface files which are
         in support of a larger wrapping project.
@@ -787,6 +787,8 @@ class PybindWrapper:
 
         Args:
             source: Interface file which forms the submodule.
+            output: The file to write. If not given, it is `<stem>.cpp`
+                in the current directory.
         """
         filename = Path(source).name
         module_name = Path(source).stem
@@ -798,7 +800,9 @@ class PybindWrapper:
         cc_content = self.wrap_file(content, module_name=module_name)
 
         # Generate the C++ code which Pybind11 will use.
-        with open(filename.replace(".i", ".cpp"), "w", encoding="UTF-8") as f:
+        if output is None:
+            output = filename.replace(".i", ".cpp")
+        with open(output, "w", encoding="UTF-8") as f:
             f.write(cc_content)
 
     def wrap(self, sources, main_module_name):
